@@ -231,6 +231,75 @@ func main() {
 			w.Emit(trace.M("ev", "verify", "scen", sc, "fmt", fm, "files", fj, "repair", repair, "reported", reported, "removed", gone(), "n", nw))
 		}
 	}
+	// ---- `desync verify` on a store with hundreds of invalid chunks, many workers reporting at once: one report line per invalid chunk
+	if *desyncBin != "" {
+		for b := 0; b < 1+*n/400; b++ {
+			base := filepath.Join(*dir, "bulk")
+			os.RemoveAll(base)
+			os.MkdirAll(base, 0755)
+			fm := []string{"comp", "raw"}[b%2]
+			var files []file
+			num := map[string]int{}
+			for k := 0; k < 360; k++ {
+				d := make([]byte, 40+r.Intn(60))
+				r.Read(d)
+				id := desync.NewChunk(d).ID()
+				num[id.String()] = 100 + k
+				valid := r.Intn(3) == 0
+				body := d
+				if !valid {
+					body = append([]byte("damaged "), d...)
+				}
+				if fm == "comp" {
+					body, _ = desync.Compress(body)
+				}
+				f := file{"chunk", 100 + k, fm, valid, chunkPath(base, id, fm)}
+				write(f.path, body)
+				files = append(files, f)
+			}
+			repair := b%4 >= 2
+			args := []string{"verify", "-n", "16", "-s", base}
+			if repair {
+				args = append(args, "-r")
+			}
+			if fm == "raw" {
+				cfgp := filepath.Join(*dir, "cfg.json")
+				os.WriteFile(cfgp, []byte(fmt.Sprintf(`{"store-options": {"%s": {"uncompressed": true}}}`, base)), 0644)
+				args = append([]string{"--config", cfgp}, args...)
+			}
+			cmd := exec.Command(*desyncBin, args...)
+			cmd.Env = append(os.Environ(), "HOME=/nonexistent")
+			var se bytes.Buffer
+			cmd.Stderr = &se
+			exit := 0
+			if err := cmd.Run(); err != nil {
+				exit = 1
+			}
+			rep := map[int]bool{}
+			lines := 0
+			for _, ln := range strings.Split(strings.TrimSpace(se.String()), "\n") {
+				if strings.TrimSpace(ln) != "" {
+					lines++
+				}
+			}
+			for _, m := range re.FindAllStringSubmatch(se.String(), -1) {
+				rep[num[m[1]]] = true
+			}
+			reported := []int{}
+			for id := range rep {
+				reported = append(reported, id)
+			}
+			sort.Ints(reported)
+			fj, gone := []J{}, []J{}
+			for _, f := range files {
+				fj = append(fj, f.j())
+				if _, err := os.Stat(f.path); err != nil {
+					gone = append(gone, f.j())
+				}
+			}
+			w.Emit(trace.M("ev", "verify", "scen", *n+b+1, "fmt", fm, "files", fj, "repair", repair, "reported", reported, "removed", gone, "n", 16, "cli", true, "lines", lines, "exit", exit))
+		}
+	}
 	if err := w.Close(); err != nil {
 		fmt.Fprintln(os.Stderr, err)
 		os.Exit(2)
